@@ -49,7 +49,7 @@ func init() {
 		"Definition restore_steps_store : list string := Model.CheckpointTable.restore_steps_store.\n\n"+
 		"Definition dag_load (V : Type) (ch dc : chan V) : chan V := model_load ch dc.\n"+
 		"Definition pregel_load (V : Type) (ch dc : chan V) : chan V := model_load ch dc.\n"+
-		"Definition load_channels (V : Type) (load : chan V -> chan V -> chan V) (own cp : chans V) : chans V := model_load_channels own cp.\n"+
+		"Definition load_channels (V : Type) (load : chan V -> chan V -> chan V) (own cp : chans V) : list (key * live_chan V) := model_load_channels own cp.\n"+
 		"Definition forward_checkpoint (SCP : Type) (cp : option (list (N * SCP))) (nodeKey : N) : fwd SCP := model_forward cp nodeKey.\n"+
 		"Definition clear_checkpoint (SCP : Type) (cp : option (list (N * SCP))) : fwd SCP := FNone.\n"+
 		"Arguments forward_checkpoint {SCP}. Arguments clear_checkpoint {SCP}.\n"+
@@ -317,6 +317,26 @@ func c05LoadChannels(f *ast.File) (string, error) {
 		return "", c05Err(where, "the lookup is not %s[%s] tested by its ok", pn[0], kv)
 	}
 	nv := c05Ident(as.Lhs[0])
+	// the checkpoint's object ADOPTED in place of the compiled one: [if <test> { return ... }]* ; c.channels[key] = nCh
+	if n := len(is.Body.List); n >= 1 {
+		if aa, ok := is.Body.List[n-1].(*ast.AssignStmt); ok && aa.Tok == token.ASSIGN && len(aa.Lhs) == 1 && len(aa.Rhs) == 1 && c05Ident(aa.Rhs[0]) == nv {
+			if aix, ok := aa.Lhs[0].(*ast.IndexExpr); ok && c05Ident(aix.Index) == kv {
+				if x, fl, ok := c05Sel(aix.X); ok && x == recv && fl == "channels" {
+					guards := true
+					for _, g := range is.Body.List[:n-1] {
+						gi, ok := g.(*ast.IfStmt)
+						guards = guards && ok && gi.Else == nil && c05AlwaysReturns(gi.Body.List)
+					}
+					if guards {
+						if ret, ok := l[1].(*ast.ReturnStmt); ok && len(ret.Results) == 1 && c05IsNil(ret.Results[0]) {
+							return "map (fun kc => let key := fst kc in let ch := snd kc in\n" +
+								"      match m_get key cp with\n      | Some nCh => (key, decoded_object nCh)\n      | None => (key, compiled_object ch)\n      end) own", nil
+						}
+					}
+				}
+			}
+		}
+	}
 	if len(is.Body.List) != 1 {
 		return "", c05Err(where, "body of the lookup")
 	}
@@ -339,7 +359,7 @@ func c05LoadChannels(f *ast.File) (string, error) {
 		return "", c05Err(where, "last statement is not `return nil`")
 	}
 	return "map (fun kc => let key := fst kc in let ch := snd kc in\n" +
-		"      match m_get key cp with\n      | Some nCh => (key, load ch nCh)\n      | None => (key, ch)\n      end) own", nil
+		"      match m_get key cp with\n      | Some nCh => (key, compiled_object (load ch nCh))\n      | None => (key, compiled_object ch)\n      end) own", nil
 }
 
 // ---------------------------------------------------------------- forwardCheckPoint / clearCheckPoint
@@ -1016,7 +1036,7 @@ func c05ExtractCpCode(repo string) (string, string, error) {
 	fmt.Fprintf(&b, "Definition restore_steps_store : list string := %s.\n\n", c05StrList(ss))
 	fmt.Fprintf(&b, "Definition dag_load (V : Type) (ch dc : chan V) : chan V :=\n    %s.\n\n", dagLoad)
 	fmt.Fprintf(&b, "Definition pregel_load (V : Type) (ch dc : chan V) : chan V :=\n    %s.\n\n", preLoad)
-	fmt.Fprintf(&b, "Definition load_channels (V : Type) (load : chan V -> chan V -> chan V) (own cp : chans V) : chans V :=\n    %s.\n\n", loadAll)
+	fmt.Fprintf(&b, "Definition load_channels (V : Type) (load : chan V -> chan V -> chan V) (own cp : chans V) : list (key * live_chan V) :=\n    %s.\n\n", loadAll)
 	fmt.Fprintf(&b, "Definition forward_checkpoint (SCP : Type) (cp : option (list (N * SCP))) (nodeKey : N) : fwd SCP :=\n    %s.\n\n", fwd)
 	fmt.Fprintf(&b, "Definition clear_checkpoint (SCP : Type) (cp : option (list (N * SCP))) : fwd SCP :=\n    %s.\n\n", clr)
 	b.WriteString("Arguments forward_checkpoint {SCP}. Arguments clear_checkpoint {SCP}.\n\n")
